@@ -618,3 +618,47 @@ def run_cli_learn_case(case: dict) -> dict:
     finally:
         shutil.rmtree(wd, ignore_errors=True)
     return out
+
+
+# ------------------------------------------------------------------------------------------
+# several job names emitted by ONE call (C05: "every emitted file")
+# ------------------------------------------------------------------------------------------
+
+
+def run_multi_job_case(case: dict) -> dict:
+    """pv_streams_to_puml_files([(name1, jobs1), (name2, jobs2), ...], dir): one file per job
+    name; every file is judged against its own jobs only."""
+    from . import learn
+    from tel2puml.pv_to_puml.pv_to_puml import pv_streams_to_puml_files
+    rng = random.Random(case["rng_seed"])
+    wd = tempfile.mkdtemp(prefix="c05multi-", dir=case["work_dir"])
+    out: dict[str, Any] = {"status": "ok", "parts": []}
+    try:
+        streams = []
+        jobs_by_name = {}
+        for part in case["parts"]:
+            jobs = [puml.job_from_json(j) for j in part["jobs"]]
+            jobs_by_name[part["name"]] = jobs
+            streams.append((part["name"], gen.present(jobs, rng, part["name"], "base")))
+        n_events = sum(len(j) for js in jobs_by_name.values() for j in js)
+        r = _learn_guard(lambda: pv_streams_to_puml_files(
+            ((n, (list(j) for j in pv)) for n, pv in streams), wd),
+            lcase.STEP_BUDGET_BASE + lcase.STEP_BUDGET_PER_EVENT * n_events)
+        out["call_ok"] = r["ok"]
+        if not r["ok"]:
+            out["exc_type"], out["exc"] = r["exc_type"], r.get("exc")
+        for part in case["parts"]:
+            path = os.path.join(wd, part["name"].replace(" ", "_") + ".puml")
+            if not os.path.exists(path):
+                out["parts"].append({"name": part["name"], "emitted": False})
+                continue
+            text = open(path).read()
+            j = learn.judge_output(text, part["name"], jobs_by_name[part["name"]], None,
+                                   check_extra=False)
+            out["parts"].append({"name": part["name"], "emitted": True, "puml": text,
+                                 "problems": j["problems"], "missing": j["missing_names"],
+                                 "extra": j["extra_names"], "leaked": j["leaked"],
+                                 "rejected": j.get("rejected_jobs", [])})
+    finally:
+        shutil.rmtree(wd, ignore_errors=True)
+    return out
